@@ -30,7 +30,7 @@ META = dict(
 )
 
 PREFIX = ("reg", "conn", "uod")
-ALPHABET = ("rs1", "stop1", "disc", "reg", "conn", "restart", "rs2", "stop2")
+ALPHABET = ("rs1", "stop1", "disc", "reg", "conn", "restart", "rs2", "stop2", "bounce")   # bounce = disc+reg+conn+uod in one step
 
 
 def _run_of(ev):
